@@ -219,8 +219,18 @@ def check(ctx, tree, leaves0, dsl, cfg):  # noqa: C901, PLR0912, PLR0915
                     or (comp.namespace == real.namespace and repr(comp) != repr(real))):
                 ctx.violation('compose-vs-flatten', keyf('compose-vs-flatten'), case, f'{comp!r} vs {real!r}')
             viat = spec.transform(None, lambda _s, ispec=ispec: ispec)
-            if viat != comp or viat.paths() != comp.paths() or hash(viat) != hash(comp):
+            # (with no leaf to replace, transform never sees `ispec`, so only compose can pick up its namespace)
+            strict = spec.num_leaves > 0
+            if (viat != comp or viat.paths() != comp.paths() or hash(viat) != hash(comp) or viat.none_is_leaf != comp.none_is_leaf
+                    or (strict and (viat.namespace != comp.namespace or repr(viat) != repr(comp)))):
                 ctx.violation('transform-vs-compose', keyf('transform-vs-compose'), case, f'{viat!r} vs {comp!r}')
+            else:
+                # the transformed treespec is usable like the composed one: it matches the composed tree
+                r9 = outcome_of(lambda: viat.flatten_up_to(composed_obj))
+                r10 = outcome_of(lambda: comp.flatten_up_to(composed_obj))
+                if r9[0] != r10[0] or (r9[0] == 'ok' and len(r9[1]) != len(r10[1])):
+                    ctx.violation('transform-vs-compose', keyf('transform-vs-compose'), case,
+                                  f'flatten_up_to through transform {r9!r} vs through compose {r10!r}'[:500])
     # 6. repr
     want_repr = Ref.spec_repr(d, nil, flat.namespace)
     if repr(spec) != want_repr or str(spec) != want_repr:
